@@ -91,6 +91,48 @@ fn yaml_input(r: &mut Rng, small: bool) -> (Vec<u8>, &'static str) {
 			let n = r.range(1, 10);
 			(gen::random_tokens(r, &gen::alphabet(Fmt::Yaml), n), "tokens")
 		}
+		8 if r.chance(1, 2) => {
+			// A soup of UTF-16 code units (or UTF-32 values): every adjacency of ordinary
+			// characters, leading and trailing surrogates, values beyond U+10FFFF - also in
+			// the middle of input that is already buffered.
+			let wide = r.chance(1, 3);
+			let n = r.range(2, 40);
+			let mut units: Vec<u32> = vec![];
+			for _ in 0..n {
+				units.push(match r.below(10) {
+					0..=3 => u32::from(*r.pick(b"a: -\n[]x")),
+					4 => *r.pick(&[0xe9u32, 0x65e5, 0x7ff, 0xfffd]),
+					5 | 6 => 0xd800 + r.below(0x400) as u32,
+					7 | 8 => 0xdc00 + r.below(0x400) as u32,
+					_ => {
+						if wide {
+							*r.pick(&[0x1f600u32, 0x10ffff, 0x110000, 0xffff_ffff, 0xd800])
+						} else {
+							0xfeff
+						}
+					}
+				});
+			}
+			let big_endian = r.chance(1, 2);
+			let mut b: Vec<u8> = vec![];
+			if r.chance(2, 3) {
+				units.insert(0, 0xfeff);
+			} else {
+				units.insert(0, u32::from(b'a'));
+			}
+			for u in &units {
+				if wide {
+					b.extend_from_slice(&if big_endian { u.to_be_bytes() } else { u.to_le_bytes() });
+				} else {
+					let v = *u as u16;
+					b.extend_from_slice(&if big_endian { v.to_be_bytes() } else { v.to_le_bytes() });
+				}
+			}
+			if r.chance(1, 6) {
+				b.pop();
+			}
+			(b, "utf16_32")
+		}
 		8 | 9 => {
 			let (s, _) = gen::gen_stream(r, Fmt::Yaml, 1, &cfg, true);
 			let text = String::from_utf8_lossy(&s.bytes).into_owned();
